@@ -2,6 +2,7 @@ package c18
 
 import (
 	"fmt"
+	"sync"
 
 	"github.com/bnb-chain/tss-lib/v2/crypto/ckd"
 
@@ -112,5 +113,67 @@ func runHistories(r *core.Run, thorough bool) {
 				r.Count("cases_history", 1)
 			}
 		}
+	}
+}
+
+// runConcurrent: a supplementary, free-running pass (NOT exhaustive and not the deciding method of this check:
+// the derivation functions have no synchronisation points a scheduler could own). Many goroutines derive
+// along the same paths from their own parent objects at the same time; derivation is a function of its
+// arguments, so every result must equal the reference. A mismatch or panic is a sound finding (state shared
+// between calls); silence here proves nothing.
+func runConcurrent(r *core.Run) {
+	ps := parents()
+	if len(ps) == 0 {
+		return
+	}
+	p := ps[0]
+	paths := [][]uint32{{0}, {0, 1}, {1, 2147483647, 2}}
+	want := make([]string, len(paths))
+	for i, pa := range paths {
+		w := refDerive(p.x, pa)
+		if w.err != nil {
+			return
+		}
+		want[i] = w.x.String()
+	}
+	const workers, rounds = 16, 300
+	var mu sync.Mutex
+	bad := ""
+	var wg sync.WaitGroup
+	for g := 0; g < workers; g++ {
+		wg.Add(1)
+		go func() {
+			defer wg.Done()
+			parent := toLib(p.x) // every goroutine has its own parent object
+			for k := 0; k < rounds; k++ {
+				for i, pa := range paths {
+					got := libHier(pa, parent)
+					msg := ""
+					switch {
+					case got.panic != "":
+						msg = "panic: " + got.panic
+					case got.err != nil:
+						msg = "error: " + got.err.Error()
+					default:
+						if s, pan := libString(got.key); pan != "" || s != want[i] {
+							msg = "derived " + s + pan + " want " + want[i]
+						}
+					}
+					if msg != "" {
+						mu.Lock()
+						if bad == "" {
+							bad = fmt.Sprintf("path %s: %s", pathStr(pa), msg)
+						}
+						mu.Unlock()
+						return
+					}
+				}
+			}
+		}()
+	}
+	wg.Wait()
+	r.Set("concurrent_pass", fmt.Sprintf("%d goroutines x %d rounds x %d paths (supplementary, free-running)", workers, rounds, len(paths)))
+	if bad != "" {
+		r.Violate("concurrent/derivation-depends-on-other-goroutines", "derivations running at the same time in several goroutines (each on its own parent object) give a wrong result: "+bad, map[string]string{"parent": p.name, "first": bad})
 	}
 }
